@@ -41,7 +41,7 @@ OPS = [
     (r'(?m)^[ \t]+[\w\.]+\.(?:push|insert|extend|append|retain|sort\w*|dedup\w*|clear|remove|push_str|truncate)\([^\n]*\);\n', ''),
     (r'(?m)^[ \t]+(?:self\.)?\w+(?:\.\w+)+ = [^\n]*;\n', ''),
     (r' \+ ', ' - '), (r' - ', ' + '), (r'\.unwrap_or\(true\)', '.unwrap_or(false)'), (r'\.unwrap_or\(false\)', '.unwrap_or(true)'),
-    (r'\.filter\(', '.filter(|_| true).filter('), (r'\.take\(', '.skip(0).take(1 + '), (r'\.flatten\(\)', '.take(1).flatten()'),
+    (r'\.take\(', '.skip(0).take(1 + '), (r'\.flatten\(\)', '.take(1).flatten()'),
 ]
 
 def mutants_of(rel):
